@@ -89,19 +89,24 @@ pub fn circuit_verdict<'a>(outer: &'a Outer, p: &ProofWithPublicInputs<F, PC, D>
         pw.set_verifier_data_target(&outer.vdt, vd)?;
         Ok(pw)
     });
+    judge_assignment(&outer.data, &outer.ctx, assigned)
+}
+
+/// Shared tail of the circuit verdict: assignment result -> witness generation -> satisfaction oracle.
+pub fn judge_assignment<'a>(data: &'a CircuitData<F, PC, D>, ctx: &SatCtx, assigned: Result<anyhow::Result<PartialWitness<F>>, crate::mon::PanicRec>) -> CircuitVerdict<'a> {
     let pw = match assigned {
         Ok(Ok(pw)) => pw,
         Ok(Err(e)) => return CircuitVerdict::Rejected(format!("assignment refused: {}", msg_class(&e.to_string()).chars().take(60).collect::<String>())),
         Err(pn) => return CircuitVerdict::Rejected(format!("assignment panicked: {} @ {}", msg_class(&pn.msg).chars().take(50).collect::<String>(), norm_loc(&pn.loc))),
     };
-    let w = match catch(|| generate_partial_witness(pw, &outer.data.prover_only, &outer.data.common)) {
+    let w = match catch(|| generate_partial_witness(pw, &data.prover_only, &data.common)) {
         Ok(Ok(w)) => w,
         Ok(Err(e)) => return CircuitVerdict::Rejected(format!("witness generation: {}", msg_class(&e.to_string()).chars().take(50).collect::<String>())),
         Err(pn) => return CircuitVerdict::Rejected(format!("witness generation panicked: {} @ {}", msg_class(&pn.msg).chars().take(50).collect::<String>(), norm_loc(&pn.loc))),
     };
-    match sat::prover_view(&outer.data, &w) {
+    match sat::prover_view(data, &w) {
         Ok((cols, pis)) => {
-            let rep = outer.ctx.check(&outer.data.prover_only, &outer.data.common, &cols, &pis);
+            let rep = ctx.check(&data.prover_only, &data.common, &cols, &pis);
             if rep.satisfied() {
                 CircuitVerdict::Accepted(w)
             } else {
